@@ -257,8 +257,17 @@ def block_forms(delim, trim):
 
 
 def plain_forms(delim):
-    """variable end / raw begin: `-`end + whitespace, or end; never affected by the automatic options"""
+    """variable end: `-`end + whitespace, or end; never affected by the automatic options (`+}}` is an operator followed by
+    the delimiter, not a modifier)"""
     return {("-", delim, "\\s*"), ("", delim, "none")}
+
+
+def raw_begin_forms(delim):
+    """right side of the opening raw tag: a block tag, so `+`end and `-`end + whitespace are accepted like on every other
+    block tag (the statement: "a '+' disables the respective automatic trimming"; its quantifier: raw tags carrying every
+    combination of '-', '+' and no modifier on each side) - but NO automatic line-break removal, whatever trim_blocks says:
+    "the body of a raw block stays verbatim", so here '+' has nothing to disable and must simply be accepted."""
+    return {("+", delim, "none"), ("-", delim, "\\s*"), ("", delim, "none")}
 
 
 def end_rule_facts(kw):
@@ -304,7 +313,7 @@ def end_rule_facts(kw):
             if head != signs:
                 probs.append(f"opening of the raw tag accepts {sorted(head)}, documented {sorted(signs)}")
             got = RF.end_forms(sp[1], be)
-    out.append(("raw_begin_end", got, plain_forms(be), probs))
+    out.append(("raw_begin_end", got, raw_begin_forms(be), probs))
     return out
 
 
@@ -312,7 +321,7 @@ def doc_accepts(rule, delim, trim, s):
     """documented acceptance of the string s as the end of a tag (own words, no regex)"""
     automatic = rule in ("block_end", "comment_end", "raw_end")
     if s == "+" + delim:
-        return automatic
+        return rule != "variable_end"  # every block / comment / raw tag side accepts '+'; `+}}` is an operator
     if s.startswith("-" + delim):
         return all(c in X.WS_PY for c in s[len(delim) + 1:])
     if s == delim:
@@ -354,6 +363,17 @@ def replay_rules_right(w):
             r, d = real_accepts(lx, rule, s, env), doc_accepts(rule, delim, env.trim_blocks, s)
             if r != d:
                 bad.append((s, r, d))
+    if rule == "raw_begin_end":
+        # end to end (the input of hunt/f/C12_1): '+' on the right of the opening raw tag must be accepted and change nothing
+        bs, be = env.block_start_string, env.block_end_string
+        src_plus = f"A\n{bs} raw +{be}\n  x \n{bs} endraw {be}\nB"
+        try:
+            got = env.from_string(src_plus).render()
+        except Exception as ex:  # noqa
+            got = f"<{type(ex).__name__}: {ex}>"
+        want = env.from_string(src_plus.replace(" +" + be, " " + be)).render()
+        if got != want:
+            bad.append((src_plus, got, want))
     return (bool(bad), f"{rule} of configuration {kw}: (candidate end tag, real pattern accepts, documented) disagree on {bad[:6]}")
 
 
@@ -378,8 +398,18 @@ def rules_right(task, tier, seed):
                 v, d = replay_rules_right({"config": kw, "rule": rule})
                 out.append(res(name, False, "; ".join(probs) + " | " + d, {"config": kw, "rule": rule}, t0=t0, undecided=not v))
             else:
-                out.append(res(name, got == want, f"pattern accepts {sorted(got)}, documented {sorted(want)}", {"config": kw, "rule": rule}, t0=t0))
-    return cap_refuted(out)
+                diff = {"missing": sorted((sg, tr) for sg, d, tr in want - got), "extra": sorted((sg, tr) for sg, d, tr in got - want)}
+                out.append(res(name, got == want, f"pattern accepts {sorted(got)}, documented {sorted(want)}", dict({"config": kw, "rule": rule}, **diff), t0=t0))
+    capped = []
+    for rule in ("block_end", "variable_end", "comment_end", "raw_end", "raw_begin_end"):
+        capped += cap_refuted([r for r in out if r.name.endswith("." + rule)], limit=4)
+    return capped
+
+
+def rules_right_key(r):
+    """class of the disagreement: rule + which (sign, trailing) forms are missing / extra (independent of the delimiters)"""
+    w = r.witness or {}
+    return f"{w.get('rule')}:missing={w.get('missing')}:extra={w.get('extra')}"
 
 
 def rules_left(task, tier, seed):
@@ -602,7 +632,62 @@ def bounded_trim_family(fam):
     return run
 
 
+def render_case_rawplus(ids, setting):
+    key = ("raw+", setting)
+    if key not in _fam_envs:
+        _fam_envs[key] = (jinja2.Environment(trim_blocks=setting[0], lstrip_blocks=setting[1], cache_size=0), X.raw_plus_variants())
+    env, tags = _fam_envs[key]
+    parts = X.skeleton(*ids, tags=tags)
+    src = X.source_of(parts)
+    want = X.reference_render(X.working_parts(parts), setting[0], setting[1])
+    try:
+        got = env.from_string(src).render(v="V")
+    except Exception as ex:  # noqa
+        got = f"<{type(ex).__name__}: {ex}>"
+    return src, got, want
+
+
+def rawplus_class(got):
+    """class of a failure on `{% raw +%}`: the exception type, or 'wrong-text'"""
+    return "raw+:" + (got[1:].split(":")[0] if got.startswith("<") else "wrong-text")
+
+
+def bounded_trim_rawplus(task, tier, seed):
+    """the quantifier of C12 lists raw tags carrying '+' on each side: every skeleton with one raw block whose opening tag is
+    `{% raw +%}` (9 outer modifier combinations x 49 separator pairs x 4 settings); one failure is reported per failure class"""
+    t0 = time.time()
+    n, out, seen = 0, [], set()
+    for t in range(9):
+        for a in range(len(X.SEPS)):
+            for b in range(len(X.SEPS)):
+                ids = ((t,), (a, b))
+                for setting in X.SETTINGS:
+                    src, got, want = render_case_rawplus(ids, setting)
+                    n += 1
+                    if got != want and rawplus_class(got) not in seen:
+                        seen.add(rawplus_class(got))
+                        out.append(Res(f"C12.bounded.trim[raw+].case{len(out)}", "refuted", "native", time.time() - t0,
+                                       f"{src!r} trim_blocks={setting[0]} lstrip_blocks={setting[1]}: rendered {got!r}, documented rules give {want!r}",
+                                       "bounded", {"rawplus": True, "tags": list(ids[0]), "seps": list(ids[1]), "trim_blocks": setting[0],
+                                                   "lstrip_blocks": setting[1], "class": rawplus_class(got)}))
+    task.stats = {"renders": n}
+    if not out:
+        out.append(Res("C12.bounded.trim[raw+]", "bounded-ok", "native", time.time() - t0, f"{n} renders equal the reference trimming function", "bounded"))
+    return out
+
+
 def replay_trim(w):
+    if w.get("rawplus"):
+        src, got, want = render_case_rawplus((tuple(w["tags"]), tuple(w["seps"])), (w["trim_blocks"], w["lstrip_blocks"]))
+        hunt = "A\n{% raw +%}\n  {{ body }}\n{% endraw %}\nB"  # the input of hunt/f/C12_1
+        env = jinja2.Environment(trim_blocks=w["trim_blocks"], lstrip_blocks=w["lstrip_blocks"])
+        try:
+            hgot = env.from_string(hunt).render()
+        except Exception as ex:  # noqa
+            hgot = f"<{type(ex).__name__}: {ex}>"
+        hwant = env.from_string(hunt.replace(" +%}", " %}")).render()
+        return (got != want or hgot != hwant, f"{src!r}: rendered {got!r}, documented rules give {want!r}; {hunt!r}: rendered {hgot!r}, "
+                                              f"the same template without '+' gives {hwant!r}")
     if w.get("family"):
         src, got, want = render_case_family((tuple(w["tags"]), tuple(w["seps"])), (w["trim_blocks"], w["lstrip_blocks"]), w["family"])
         return (got != want, f"{w['family']} delimiters, {src!r} trim_blocks={w['trim_blocks']} lstrip_blocks={w['lstrip_blocks']}: rendered {got!r}, documented rules give {want!r}")
@@ -620,6 +705,10 @@ def bounded_tasks():
         t = FnTask(PROP, f"C12.bounded.trim[{fam}]", bounded_trim_family(fam), kind="bounded", replay_fn=replay_trim)
         t.bound_text = X.FAMILY_BOUND + f" ({fam} delimiters)"
         ts.append(t)
+    t = FnTask(PROP, "C12.bounded.trim[raw+]", bounded_trim_rawplus, kind="bounded", replay_fn=replay_trim)
+    t.bound_text = "every skeleton with one raw block whose opening tag is `{% raw +%}`: 9 outer modifier combinations x 49 separator pairs x 4 settings"
+    t.finding_key = lambda r: (r.witness or {}).get("class")
+    ts.append(t)
     return ts
 
 
@@ -665,8 +754,11 @@ def line_starting_tasks():
     return _c39.loop_tasks(("linestart",), "C12.line_starting", cls=LineStarting) + [LineStartingInit(None, prefix="C12.line_starting.init")]
 
 
+_rules_right = FnTask(PROP, "C12.rules.right", rules_right, kind="regex", replay_fn=replay_rules_right)
+_rules_right.finding_key = rules_right_key
+
 TASKS = (lstrip_tasks() + line_starting_tasks()
-         + [FnTask(PROP, "C12.rules.right", rules_right, kind="regex", replay_fn=replay_rules_right),
+         + [_rules_right,
             FnTask(PROP, "C12.rules.left", rules_left, kind="regex", replay_fn=lambda w: (None, "structural fact; see C12.bounded.trim")),
             FnTask(PROP, "C12.ws.same_class", ws_same_class, kind="table", replay_fn=replay_ws),
             FnTask(PROP, "C12.cache_key", cache_key, kind="table", replay_fn=replay_cache_key)]
